@@ -1,6 +1,8 @@
 package gram
 
 import (
+	"io"
+
 	"github.com/alecthomas/participle/v2/lexer"
 )
 
@@ -26,9 +28,67 @@ var LexDef = lexer.MustSimple([]lexer.SimpleRule{
 	{Name: "Comment", Pattern: `#[a-z ]*#`},
 })
 
+// CustomDef is a lexer.Definition implemented outside the library: the stateful profile's lexer with every token
+// type renumbered to a positive number (the library's own lexers only hand out negative ones). It is used by value
+// and has a slice field (so it is neither comparable nor hashable), and it offers Lex(reader) only.
+type CustomDef struct {
+	inner lexer.Definition
+	names []string // symbol names in numbering order
+}
+
+// Symbols implements lexer.Definition.
+func (d CustomDef) Symbols() map[string]lexer.TokenType {
+	out := map[string]lexer.TokenType{"EOF": lexer.EOF}
+	for i, n := range d.names {
+		out[n] = lexer.TokenType(3 + 7*i)
+	}
+	return out
+}
+
+// Lex implements lexer.Definition.
+func (d CustomDef) Lex(filename string, r io.Reader) (lexer.Lexer, error) {
+	l, err := d.inner.Lex(filename, r)
+	if err != nil {
+		return nil, err
+	}
+	m := map[lexer.TokenType]lexer.TokenType{lexer.EOF: lexer.EOF}
+	cs := d.Symbols()
+	for n, t := range d.inner.Symbols() {
+		m[t] = cs[n]
+	}
+	return &customLexer{l, m}, nil
+}
+
+type customLexer struct {
+	l lexer.Lexer
+	m map[lexer.TokenType]lexer.TokenType
+}
+
+func (c *customLexer) Next() (lexer.Token, error) {
+	t, err := c.l.Next()
+	if err != nil {
+		return t, err
+	}
+	t.Type = c.m[t.Type]
+	return t, nil
+}
+
 var profiles = map[string]*Profile{
 	"": {
 		Name: "stateful", Def: LexDef,
+		Vocab: []VTok{
+			{"Ident", "a"}, {"Ident", "b"}, {"Ident", "ab"}, {"Ident", "A"},
+			{"Int", "1"}, {"Int", "2"}, {"Int", "12"},
+			{"Punct", "+"}, {"Punct", "-"}, {"Punct", ";"}, {"Punct", "("}, {"Punct", ")"},
+		},
+		RefTypes:    []string{"Ident", "Int", "Punct"},
+		ElideSets:   [][]string{{"WS"}, {"WS", "Comment"}},
+		WSSeps:      []string{" ", "  ", "\n", "\t ", " \n "},
+		CommentSeps: []string{"#c#", " #x y# ", "#a#\n", "#b##c#", " #z#"},
+	},
+	// a lexer.Definition written by a user of the library: same tokens as the stateful profile, positive type numbers
+	"custom": {
+		Name: "custom", Def: CustomDef{inner: LexDef, names: []string{"Comment", "WS", "Punct", "Ident", "Int"}},
 		Vocab: []VTok{
 			{"Ident", "a"}, {"Ident", "b"}, {"Ident", "ab"}, {"Ident", "A"},
 			{"Int", "1"}, {"Int", "2"}, {"Int", "12"},
